@@ -38,7 +38,10 @@ def finding(fid, properties):
 
 
 def attribute(cid, case, rejudge):
-    """rejudge(case) -> list of problems (empty when the property holds on that case)."""
+    """rejudge(case) -> list of problems (empty when the property holds on that case).
+    One finding alone is tried first; when several open findings are triggered by the same case (two mechanisms in one document), the
+    case is attributed -- to the first of them -- only if it passes once *all* the triggered ones are neutralised together."""
+    matched = []
     for fid, (props, trigger, neutralise) in REGISTRY.items():
         if fid not in OPEN or cid not in props:
             continue
@@ -48,10 +51,21 @@ def attribute(cid, case, rejudge):
             neutral = neutralise(copy.deepcopy(case))
             if neutral is None:
                 continue
+            matched.append((fid, neutralise))
             if not rejudge(neutral):
                 return fid
         except Exception:
             continue
+    if len(matched) > 1:
+        try:
+            neutral = copy.deepcopy(case)
+            for _fid, neutralise in matched:
+                nxt = neutralise(neutral)
+                neutral = nxt if nxt is not None else neutral
+            if not rejudge(neutral):
+                return matched[0][0]
+        except Exception:
+            pass
     return None
 
 
@@ -166,4 +180,30 @@ class _KF_C01_1:
                     spec["local"] = "%s_kf%d" % (spec["local"], n)
                 elif "s" in spec:
                     spec["s"] = "%s_kf%d" % (spec["s"], n)
+        return case if n else None
+
+
+# ---------------------------------------------------------------------------------------------------------
+# KF-C01-2: one hadMember record can hold several prov:entity values (new_record() in a single call, or the PROV-XML reader for
+# several <prov:entity> children).  PROV-XML writes all of them; the PROV-JSON writer stores them under one dict key, so only one
+# member reaches the text (its own reader, in the other direction, turns an array of members into several records).
+# ---------------------------------------------------------------------------------------------------------
+def _extra_member_pairs(op):
+    return [x for x in op[5] if isinstance(x[0], dict) and x[0].get("s") == "prov:entity"] if op[0] == "rec" and op[2] == "Membership" else []
+
+
+@finding("KF-C01-2", ["C01", "C10"])
+class _KF_C01_2:
+    @staticmethod
+    def trigger(case):
+        return case.get("fmt", "json") == "json" and any(_extra_member_pairs(op) for op in case.get("ops", []))
+
+    @staticmethod
+    def neutralise(case):
+        n = 0
+        for op in case["ops"]:
+            extra = _extra_member_pairs(op)
+            if extra:
+                op[5] = [x for x in op[5] if x not in extra]
+                n += 1
         return case if n else None
